@@ -137,9 +137,90 @@ def differential():
     return []
 
 
+SPEC2 = pygen.Spec("k2", [("x", "String"), ("l", "List String")], {"x": ("x", "str"), "l": ("l", "slist")},
+                   ret="sset", monad="pure", local_types={"found": "sset"})
+
+ACCEPTED2_SRC = '''def k2(x, l):
+    found = set()
+    for w in l:
+        if w == "skip":
+            continue
+        parts = w.split()
+        for p in parts:
+            if p in x:
+                found.add(p)
+                break
+    return found
+'''
+
+ACCEPTED2_LEAN = [
+    'def k2 (x : String) (l : List String) : List String := Id.run do',
+    '  let mut found : List String := []',
+    '  found := (l.filter (fun w => (!(w == "skip")))).foldl (fun found w => let parts : List String := (splitWs w); '
+    '(match (parts.find? (fun p => (isSubstr p x))) with | some p => (found ++ [p]) | none => found)) found',
+    '  return found']
+
+REFUSED2 = {
+    "set() for a local that is not declared a set": "def k2(x, l):\n    other = set()\n    return other\n",
+    "add on a list": "def k2(x, l):\n    found = set()\n    out = x.split()\n    for w in l:\n        out.add(w)\n    return found\n",
+    "first-match loop with an else": "def k2(x, l):\n    found = set()\n    for w in l:\n        for p in w.split():\n            if p in x:\n                found.add(p)\n                break\n        else:\n            found.add(w)\n    return found\n",
+    "nested loop without break": "def k2(x, l):\n    found = set()\n    for w in l:\n        for p in w.split():\n            if p in x:\n                found.add(p)\n    return found\n",
+    "break that is not the last statement": "def k2(x, l):\n    found = set()\n    for w in l:\n        for p in w.split():\n            if p in x:\n                break\n                found.add(p)\n    return found\n",
+    "set with arguments": "def k2(x, l):\n    found = set(l)\n    return found\n",
+    "size of the set": "def k2(x, l):\n    found = set()\n    for w in l:\n        found.add(w)\n    if len(found) == 2:\n        return found\n    return found\n",
+}
+
+
+def differential2():
+    """k2 (a set built by a first-match loop inside an accumulation) in Python and Lean: the same SETS on 20 inputs"""
+    import subprocess
+    import tempfile
+    import vlib
+    ns = {}
+    exec(ACCEPTED2_SRC, ns)
+    tree = ast.parse(ACCEPTED2_SRC)
+    lean = pygen.translate(pygen.find_function(tree, "k2"), SPEC2, {})
+    cases, want = [], []
+
+    def ll(xs):
+        return "([" + ", ".join(pygen.lean_str(v) for v in xs) + "] : List String)"
+    for x in ("a b", "zz", "", "skip a"):
+        for l in ([], ["a"], ["skip", "q a b", "b a"], ["zz z", "skip", "x"], ["b", "b a", "a"]):
+            want.append(ns["k2"](x, list(l)))
+            cases.append(f"k2 {pygen.lean_str(x)} {ll(l)}")
+    src = ["import I2N.Model.Rules", "open I2N.Rules"] + lean + [
+        "#eval IO.println (\"\\n\".intercalate [" + ", ".join(f"\"=\" ++ \" \".intercalate ({c})" for c in cases) + "])"]
+    fd, tmp = tempfile.mkstemp(suffix=".lean", prefix="pygen_selftest_", dir=vlib.LEAN)
+    try:
+        with os.fdopen(fd, "w") as fh:
+            fh.write("\n".join(src) + "\n")
+        p = subprocess.run(["lake", "env", "lean", tmp], cwd=vlib.LEAN, stdout=subprocess.PIPE, stderr=subprocess.STDOUT,
+                           text=True, timeout=600)
+    finally:
+        os.unlink(tmp)
+    got = [set(l[1:].split()) for l in p.stdout.splitlines() if l.startswith("=")]
+    if p.returncode != 0 or got != want:
+        diff = [f"{c}: python {w!r}, lean {g!r}" for c, w, g in zip(cases, want, got) if w != g][:5]
+        return [f"differential run 2 (pxready): lean exit {p.returncode}, {len(got)} answers for {len(want)} cases; "
+                + "; ".join(diff) + (p.stdout[-600:] if p.returncode else "")]
+    return []
+
+
 def run(lean=True):
     """list of problems"""
-    bad = differential() if lean else []
+    bad = differential() + differential2() if lean else []
+    for what, src in REFUSED2.items():
+        try:
+            tree = ast.parse(src)
+            pygen.translate(pygen.find_function(tree, "k2"), SPEC2, {})
+            bad.append("NOT refused (pxready): " + what)
+        except pygen.Unsupported:
+            pass
+    tree = ast.parse(ACCEPTED2_SRC)
+    got2 = pygen.translate(pygen.find_function(tree, "k2"), SPEC2, {})
+    got2 = got2[:got2.index("")]
+    if got2 != ACCEPTED2_LEAN:
+        bad.append("unexpected translation of k2:\n" + "\n".join(got2))
     for what, src in list(REFUSED.items()) + list(NO_INDEX_ERROR.items()):
         spec = SPEC
         if what in NO_INDEX_ERROR:
@@ -161,7 +242,7 @@ def run(lean=True):
 
 if __name__ == "__main__":
     problems = run("--no-lean" not in sys.argv)
-    print(f"pygen selftest (pxready): {len(REFUSED) + len(NO_INDEX_ERROR)} refusals, 1 translation, 24 inputs: "
+    print(f"pygen selftest (pxready): {len(REFUSED) + len(NO_INDEX_ERROR) + len(REFUSED2)} refusals, 2 translations, 24 + 20 inputs: "
           f"{len(problems)} problem(s)")
     for b in problems:
         print("  " + b)
